@@ -129,9 +129,17 @@ impl<'a, 't> ObjectTree<'a, 't> {
 
     fn ensure_object_names(&mut self) {
         let mut gen = UniqueNameGenerator::new();
-        for data in self.nodes.iter_mut().filter(|d| d.name.is_none()) {
+        // generated name shouldn't conflict with neither object id nor another generated name
+        // of different prefix (e.g. QLabel, QLabel, QLabel1 -> label, label1, label1)
+        let mut reserved_map = self.id_map.clone();
+        for (index, data) in self.nodes.iter_mut().enumerate() {
+            if data.name.is_some() {
+                continue;
+            }
             let prefix = qtname::variable_name_for_type(data.class.name());
-            data.name = Some(gen.generate_with_reserved_map(prefix, &self.id_map));
+            let name = gen.generate_with_reserved_map(prefix, &reserved_map);
+            reserved_map.insert(name.clone(), index);
+            data.name = Some(name);
         }
     }
 
